@@ -471,11 +471,34 @@ class Server(_Server_):
         with self.mutex:
             self.id_to_refcount[ident] += 1
 
+    # Changes to the original version:
+    #   - do not use `self.id_to_local_proxy_obj`
+    #   - remove the object from `id_to_obj` in the same critical section that brings its
+    #     refcount to 0. The original does that in a later, separate step; in between,
+    #     `create` (via `managed`) may wrap the same object again, and the new proxy
+    #     would be left pointing at an unregistered object.
     def decref(self, c, ident):
-        assert (
-            ident in self.id_to_refcount
-        )  # disable the use of `self.id_to_local_proxy_obj`
-        super().decref(c, ident)
+        with self.mutex:
+            assert (
+                ident in self.id_to_refcount
+            )  # disable the use of `self.id_to_local_proxy_obj`
+            if self.id_to_refcount[ident] <= 0:
+                raise AssertionError(
+                    'Id {0!s} ({1!r}) has refcount {2:n}, not 1+'.format(
+                        ident, self.id_to_obj[ident], self.id_to_refcount[ident]
+                    )
+                )
+            self.id_to_refcount[ident] -= 1
+            if self.id_to_refcount[ident] == 0:
+                del self.id_to_refcount[ident]
+                obj = self.id_to_obj.pop(ident)
+                util.debug('disposing of obj with id %r', ident)
+            else:
+                obj = None
+
+        # The object is released here, outside the mutex: it may contain other proxy objects
+        # (e.g. a managed list of managed lists), whose finalizers call `decref` in turn.
+        del obj
 
 
 class ServerProcess(BaseManager):
